@@ -128,12 +128,33 @@ class Env:
     def eval(self, ops):
         return prep.native_eval(self.native, ops)
 
+    @staticmethod
+    def _key(fname, args, kw):
+        return (fname, repr(args), repr(sorted(kw.items())))
+
+    def prefetch(self, jobs):
+        """decide the listed obligations in parallel worker processes now; run() then returns them from the cache"""
+        if not hasattr(self, 'cache'):
+            self.cache = {}
+        jobs = [(f, tuple(a), dict(k)) for f, a, k in jobs if self._key(f, tuple(a), dict(k)) not in self.cache]
+        if len(jobs) < 2 or os.environ.get('VERIF_WORKERS', '') == '1':
+            return
+        for j, r in zip(jobs, par_map(self, jobs, workers=int(os.environ.get('VERIF_WORKERS', '8' if self.rep.tier == 'quick' else '12')))):
+            self.cache[self._key(*j)] = r
+
+    def run(self, fname, *args, **kw):
+        hit = getattr(self, 'cache', {}).pop(self._key(fname, tuple(args), kw), None)
+        if hit is not None:
+            return hit
+        return getattr(Q, fname)(self.ctx, *args, **kw)
+
 
 class ObResult:
     """what a worker process returns for one obligation (z3 objects do not cross process boundaries)"""
 
     def __init__(self, d, qid, result, models, extra, classes_seen, note=''):
         self._d, self.qid, self.result, self.extra, self.classes_seen = d, qid, result, extra, classes_seen
+        self.inconclusive = d.get('inconclusive_reason')
 
         class _V:
             pass
@@ -323,7 +344,7 @@ def check_c11(rep):
                    'whole-pattern language equality after decoding', 'the compiled core::fmt code itself (modelled from the template bytes)']
     env = Env(rep)
     known, _ = load_known()
-    ob = ob_add(rep, Q.q11(env.ctx))
+    ob = ob_add(rep, env.run('q11'))
     nmax = 2 if rep.tier == 'quick' else 3
     obs = [ob]
     single = ob.verdict.models if (ob.verdict and ob.result == 'sat') else []
@@ -405,8 +426,9 @@ def check_c09(rep):
     rep.outside = []
     env = Env(rep)
     known, _ = load_known()
-    obs = {w: ob_add(rep, Q.q09(env.ctx, w)) for w in 'dws'}
-    lad = ob_add(rep, Q.q03a(env.ctx, 1))
+    env.prefetch([('q09', (w,), {}) for w in 'dws'] + [('q03a', (1,), {})])
+    obs = {w: ob_add(rep, env.run('q09', w)) for w in 'dws'}
+    lad = ob_add(rep, env.run('q03a', 1))
     cases = []
     for c in sample_cps(rep):
         for w in 'dws':
@@ -517,7 +539,7 @@ def check_c03(rep):
                    'end to end: test cases outside printable ASCII, more or longer test cases than the bound', 'combination with other options']
     env = Env(rep)
     known, _ = load_known()
-    obs = [ob_add(rep, Q.q03a(env.ctx, 1)), ob_add(rep, Q.q03b(env.ctx))]
+    obs = [ob_add(rep, env.run('q03a', 1)), ob_add(rep, env.run('q03b'))]
     single = obs[0].verdict.models if (obs[0].verdict and obs[0].result == 'sat') else []
     if len(single) < env.ctx.cap('Q03a'):
         obs.append(decide_unit_obligation(rep, Q.q03a, env.ctx, 2, exclude=single))
@@ -596,8 +618,9 @@ def replay_conversion(env, cases, flagset, x):
 
 
 def run_conversion_obligations(rep, env, known, specs):
+    env.prefetch([('q03t', (lens, flagset, dom), {}) for lens, flagset, dom in specs])
     for lens, flagset, dom in specs:
-        o = ob_add(rep, Q.q03t(env.ctx, lens, flagset, dom))
+        o = ob_add(rep, env.run('q03t', lens, flagset, dom))
         if o.result != 'sat':
             continue
         for m in o.verdict.models:
@@ -639,9 +662,9 @@ def check_c04(rep):
                         'toolchain that builds the tree (Kani could not execute it; DESIGN 3)']
     env = Env(rep)
     known, _ = load_known()
-    o1 = ob_add(rep, Q.q04(env.ctx))
+    o1 = ob_add(rep, env.run('q04'))
     # closure-level idempotence on the real tables is slow (two table compositions per path); the quick tier relies on QLEM + Q10p
-    o2 = ob_add(rep, Q.q04(env.ctx, True)) if rep.tier == 'thorough' else None
+    o2 = ob_add(rep, env.run('q04', True)) if rep.tier == 'thorough' else None
     cases = [('lower', {'c': c}, {'op': 'lower', 'cases': [[c]]}) for c in sample_cps(rep)]
     native = env.eval([c[2] for c in cases])
     for (kind, inp, _op), nat in zip(cases, native):
@@ -684,17 +707,17 @@ def check_c04(rep):
             classify(rep, known, o.qid, key, what, {'inputs': {'c': c}, 'observed': {'lower': r, 'pattern': pat, 'matches': matched}}, repro)
     # longer test cases and lists of test cases: case mapping abstracted, constrained by table lemmas decided here
     f2 = o1.verdict.models if (o1.verdict and o1.result == 'sat') else []
-    lem = ob_add(rep, Q.qlem(env.ctx))
+    lem = ob_add(rep, env.run('qlem'))
     complete = o1.result in ('unsat', 'sat') and 'cap' not in (o1.verdict.note or '') and lem.result == 'unsat'
     if not complete:
         rep.inconclusive.append('Q04n/Q04p skipped: the one-code-point result is incomplete or the table lemmas do not hold (%s / QLEM %s)' % (
             o1.verdict.note if o1.verdict else o1.inconclusive, lem.result))
     else:
-        more = [Q.q04n(env.ctx, 2, exclude=f2)]
+        more = [env.run('q04n', 2, exclude=f2)]
         for lens in ([(1, 1), (1, 2)] if rep.tier == 'quick' else [(1, 1), (1, 2), (2, 2), (1, 1, 1)]):
-            more.append(Q.q04p(env.ctx, lens, exclude=f2))
+            more.append(env.run('q04p', lens, exclude=f2))
         if rep.tier == 'thorough':
-            more.append(Q.q04n(env.ctx, 3, exclude=f2))
+            more.append(env.run('q04n', 3, exclude=f2))
         for o in more:
             ob_add(rep, o)
             if o.result != 'sat':
@@ -756,7 +779,7 @@ def check_c07(rep):
     env = Env(rep)
     known, _ = load_known()
     for w in ('repetitions', 'substring'):
-        o = ob_add(rep, Q.q07t(env.ctx, w))
+        o = ob_add(rep, env.run('q07t', w))
         if o.result == 'sat':
             m = o.verdict.models[0]
             q = m['q']
@@ -765,14 +788,14 @@ def check_c07(rep):
             classify(rep, known, o.qid, 'q=%d,which=%s' % (q, w), 'threshold setter misbehaves for q=%d: %s' % (q, got[0]),
                      {'inputs': {'q': q, 'which': w}, 'observed': got}, bad or q != 0 and got[0].get('ok') != ([q, 1] if w == 'repetitions' else [1, q]))
     for n in range(1, nmax + 1):
-        o = Q.q07g(env.ctx, n, False)
+        o = env.run('q07g', n, False)
         if o.result == 'sat':
             # not every code point sequence is a grapheme cluster: ask again for realisable shapes only
             d = o.as_dict()
             d['result'] = 'superseded'
             d['note'] = 'sat without the grapheme-cluster pre-condition; decided by the realisable query below'
             rep.obligations.append(d)
-            o = Q.q07g(env.ctx, n, True)
+            o = env.run('q07g', n, True)
         ob_add(rep, o)
         if o.result != 'sat':
             continue
@@ -827,7 +850,7 @@ def check_c07(rep):
             classify(rep, known, o.qid, key, what, {'inputs': {'e': seq, 'probe': probe, 'escape': esc, 'surrogates': surr}, 'observed': {'text': text, 'regex': r[0]}},
                      not ok and not (surr and esc and any(x >= 0x10000 for x in seq)))
     # verbose-mode indentation: total (no arithmetic panic) and content-preserving
-    io = ob_add(rep, Q.q07i(env.ctx, 3, 2) if rep.tier == 'quick' else Q.q07i(env.ctx, 3, 3))
+    io = ob_add(rep, env.run('q07i', 3, 2) if rep.tier == 'quick' else env.run('q07i', 3, 3))
     if io.result == 'sat':
         combos = io.extra.get('line_length_combinations', [])
         for m in io.verdict.models:
@@ -939,8 +962,11 @@ def check_c10(rep):
                      'applying them in either order gives the same RegExpConfig; repeating a setter with the same argument changes '
                      'nothing; no setter touches the test cases; each setter changes only its own field(s); clone() preserves config '
                      'and test cases.  (One inductive step from an arbitrary state, so it covers setter histories of any length.)')
-    rep.outside = ['everything after preprocessing: HashSet iteration order / per-process hash seeds in the minimiser, the fallback alternation',
-                   'threads and processes', 'lists of more than 3 test cases or test cases longer than 2 code points; test cases containing U+03A3',
+    rep.statement += ('  (C) hash seeds: the whole of build() (from MIR) is run under three iteration-order policies for every HashSet / HashMap '
+                      '(insertion order, reversed, rotated by one) and prints the same text, for 2-3 test cases of 1-2 letters (default settings and '
+                      'without anchors); the self-check block of RegExp::from as a unit (expression handed over by stubs, see C08) likewise.')
+    rep.outside = ['hash iteration orders other than the three policies (3 of n! per container)',
+                   'threads (the code has no shared state: nothing to schedule)', 'lists of more than 3 test cases or test cases longer than 2 code points; test cases containing U+03A3',
                    'Kani cannot execute the sort of heap strings (DESIGN 3); this part rests on mirsym alone']
     rep.assumptions += ['Q10p treats str::to_lowercase as an uninterpreted per-code-point mapping constrained by lemmas that Q04b decides on '
                         'the real table (idempotence where one code point is kept); a counterexample of the abstraction is re-decided with the '
@@ -948,16 +974,16 @@ def check_c10(rep):
                         'sort with the comparator run from MIR); Vec::dedup removes consecutive equal elements']
     env = Env(rep, need_native=True)
     known, _ = load_known()
-    o = ob_add(rep, Q.q10(env.ctx))
+    o = ob_add(rep, env.run('q10'))
     if o.result == 'sat':
         rep.nonrepro.append('Q10 is sat: %s (replay of setter pairs is done by the Kani harnesses below)' % json.dumps(o.verdict.models[0])[:300])
     # order of the input list, duplicates, repeated build(): the preprocessing at the head of RegExp::from
-    lem = ob_add(rep, Q.qlem(env.ctx))
+    lem = ob_add(rep, env.run('qlem'))
     for lens in ([(1, 1), (1, 2)] if rep.tier == 'quick' else [(1, 1), (1, 2), (2, 2), (1, 1, 1)]):
         if lem.result != 'unsat':
             rep.inconclusive.append('Q10p skipped: the table lemmas it assumes are not established (QLEM %s)' % lem.result)
             break
-        po = ob_add(rep, Q.q10p(env.ctx, lens))
+        po = ob_add(rep, env.run('q10p', lens))
         if po.result != 'sat':
             continue
         for m in po.verdict.models:
@@ -981,6 +1007,42 @@ def check_c10(rep):
                     key += ',amplified'
             what = 'build() = %s, second build() on the same builder = %s, on a clone = %s, reversed input = %s, with a duplicate = %s' % tuple(json.dumps(x) for x in outs_)
             classify(rep, known, po.qid, key, what, {'inputs': {'cases': cases_, 'settings': st_}, 'observed': outs_}, len(set(outs_)) > 1)
+    # (C) per-process hash seeds: the printed text does not depend on the iteration order of any HashSet / HashMap
+    B_ = {'no_start_anchor': True, 'no_end_anchor': True}
+    hspecs = [((2, 1), {}), ((1, 1, 1), {}), ((2, 1), B_)] + ([((2, 2), {}), ((2, 2), B_), ((2, 1), {'repetitions': True}), ((3,), {'repetitions': True})] if rep.tier == 'thorough' else [])
+    uspecs = [(SK['xx?|xx'], B_, 'same')] + ([(SK['x(xx)?|(xx|x)x'], B_, 'same'), (SK['xx?|xx'], {'no_end_anchor': True}, 'same'), (SK['x|xx'], B_, 'same')] if rep.tier == 'thorough' else [])
+    env.prefetch([('q10h', (lens, stg), {}) for lens, stg in hspecs] + [('q08u', (sk, stg, sec, None, True), {}) for sk, stg, sec in uspecs])
+    for lens, stg in hspecs:
+        ho = ob_add(rep, env.run('q10h', lens, stg))
+        if ho.result != 'sat':
+            continue
+        for m in ho.verdict.models:
+            cases_ = [[m['s%d_%d' % (i, j)] for j in range(n)] for i, n in enumerate(lens)]
+            nat = {SEARCH_SMAP[k]: True for k, v in stg.items() if v}
+            outs_ = replay_many_processes(env, cases_, nat)
+            key = 'hash-order,cases=%s,%s' % (canonical_shape(cases_), ','.join(sorted(nat)) or 'default')
+            what = 'build(%s, %s) printed %d different texts in %d runs: %s' % ([''.join(map(chr, c_)) for c_ in cases_], ','.join(sorted(nat)) or 'default',
+                                                                              len(set(outs_)), len(outs_), json.dumps(sorted(set(outs_))[:3]))
+            classify(rep, known, 'Q10h', key, what, {'inputs': {'hash_order_cases': cases_, 'settings': nat}, 'observed': sorted(set(outs_))}, len(set(outs_)) > 1)
+    for sk, stg, sec in uspecs:
+        uo = ob_add(rep, env.run('q08u', sk, stg, sec, None, True))
+        if uo.result != 'sat':
+            continue
+        nat = {SEARCH_SMAP[k]: True for k, v in stg.items() if v}
+        repro_here = 0
+        for m in uo.verdict.models:
+            cases_ = [[m[v_] for v_ in w] for w in uo.extra['cases_vars']]
+            cases_ = [list(t) for t in sorted(set(tuple(c) for c in cases_), key=lambda c: (len(c), c))]
+            outs_ = replay_many_processes(env, cases_, nat)
+            if len(set(outs_)) > 1:
+                repro_here += 1
+                key = 'hash-order,cases=%s,%s' % (canonical_shape(cases_), ','.join(sorted(nat)))
+                what = 'build(%s, %s) printed %d different texts in %d runs: %s' % ([''.join(map(chr, c_)) for c_ in cases_], ','.join(sorted(nat)),
+                                                                                  len(set(outs_)), len(outs_), json.dumps(sorted(set(outs_))[:3]))
+                classify(rep, known, 'Q10h', key, what, {'inputs': {'hash_order_cases': cases_, 'settings': nat}, 'observed': sorted(set(outs_))}, True)
+        if not repro_here:
+            rep.nonrepro.append('%s: %d input(s) for which the self-check block prints different texts under different hash orders, none reproduces through '
+                                'build() (the automaton stages do not hand over an expression of this shape for those test cases)' % (uo.qid, len(uo.verdict.models)))
     kani.prepare_lib_crate()
     os.environ['GREX_VERIF_ORACLE_RS'] = kani.gen_oracle_rs(env.oracle)
     hs = [(h, 'lib', 600, 8_000_000) for h in ('h10c_setters_commute', 'h10f_setter_frame_and_idempotence', 'h10k_clone_preserves_settings')]
@@ -1023,7 +1085,20 @@ def setter_replay_ops(vals):
     return [{'op': 'setters', 'seq': a}, {'op': 'setters', 'seq': a[::-1]}]
 
 
+def replay_many_processes(env, cases, settings, processes=12, builds_per_process=3):
+    """hash seeds differ per process and per HashSet instance: build() the same input in several fresh processes, several times each"""
+    outs = []
+    ops = [{'op': 'build', 'cases': cases, 'settings': settings} for _ in range(builds_per_process)]
+    for _ in range(processes):
+        for g in env.eval(ops):
+            outs.append(''.join(map(chr, g.get('ok') or [])) if 'ok' in g else 'PANIC')
+    return outs
+
+
 def replay_c10(env, rec):
+    if 'hash_order_cases' in rec['inputs']:
+        outs = replay_many_processes(env, rec['inputs']['hash_order_cases'], rec['inputs']['settings'], processes=30)
+        return len(set(outs)) > 1, '%d different outputs in %d runs' % (len(set(outs)), len(outs))
     if 'cases' in rec['inputs']:
         c_, st_ = rec['inputs']['cases'], rec['inputs']['settings']
         got = env.eval([{'op': 'build_twice', 'cases': c_, 'settings': st_}, {'op': 'build', 'cases': c_[::-1], 'settings': st_},
@@ -1060,8 +1135,10 @@ def check_c12(rep):
     bin_text, bi = prep.mir_dump('bin')
     rep.info['bin_mir_lines'] = bi['mir_lines']
     env.ctx.bin_mir = Mir(bin_text, prep.repo())
-    for ch in ('args', 'stdin', 'file-lf', 'file-crlf', 'file-lf-final', 'file-crlf-final', 'file-missing'):
-        o = ob_add(rep, Q.q12i(env.ctx, ch, 2, 2) if rep.tier == 'quick' else Q.q12i(env.ctx, ch, 3, 2))
+    chans = ('args', 'stdin', 'file-lf', 'file-crlf', 'file-lf-final', 'file-crlf-final', 'file-missing')
+    env.prefetch([('q12i', (ch, 2 if rep.tier == 'quick' else 3, 2), {}) for ch in chans])
+    for ch in chans:
+        o = ob_add(rep, env.run('q12i', ch, 2 if rep.tier == 'quick' else 3, 2))
         if o.result != 'sat':
             continue
         for m in o.verdict.models:
@@ -1265,15 +1342,16 @@ def check_cluster(rep, clause):
     env = Env(rep)
     known, _ = load_known()
     ns = (2, 3, 4, 5) if rep.tier == 'quick' else (2, 3, 4, 5, 6, 7)
+    env.prefetch([('q05r', (n, clause), {}) for n in ns] + ([('q05r', (n, clause), {'tokens': True}) for n in ((2, 3, 4) if rep.tier == 'quick' else (2, 3, 4, 5, 6))] if clause == 'thresholds' else []))
     for n in ns:
-        o = Q.q05r(env.ctx, n, clause)
+        o = env.run('q05r', n, clause)
         if o.result == 'sat':
             # counterexamples with arbitrary code points may not survive grapheme clustering: ask for letters a..z
             d = o.as_dict()
             d['result'] = 'superseded'
             d['note'] = 'sat for arbitrary code points; re-decided over the letters a..z so that the counterexample is a plain string'
             rep.obligations.append(d)
-            o = Q.q05r(env.ctx, n, clause, letters=True)
+            o = env.run('q05r', n, clause, letters=True)
         ob_add(rep, o)
         if o.result != 'sat':
             continue
@@ -1298,7 +1376,7 @@ def check_cluster(rep, clause):
     if clause == 'thresholds':
         # units that are shorthand-class tokens: one original character, two code points (length must be counted in characters)
         for n in ((2, 3, 4) if rep.tier == 'quick' else (2, 3, 4, 5, 6)):
-            o = ob_add(rep, Q.q05r(env.ctx, n, clause, tokens=True))
+            o = ob_add(rep, env.run('q05r', n, clause, tokens=True))
             if o.result != 'sat':
                 continue
             for m in o.verdict.models:
@@ -1456,14 +1534,15 @@ def replay_trie(env, clusters):
 
 
 def run_trie_obligations(rep, env, known, shapes):
+    env.prefetch([('q16t', (shape,), {}) for shape in shapes] + [('q16t', (shape,), {'letters': True}) for shape in shapes])
     for shape in shapes:
-        o = Q.q16t(env.ctx, shape)
+        o = env.run('q16t', shape)
         if o.result == 'sat':
             d = o.as_dict()
             d['result'] = 'superseded'
             d['note'] = 'sat for arbitrary code points; re-decided over the letters a..z so that counterexamples are plain strings'
             rep.obligations.append(d)
-            o = Q.q16t(env.ctx, shape, letters=True)
+            o = env.run('q16t', shape, letters=True)
         ob_add(rep, o)
         if o.result != 'sat':
             continue
@@ -1504,14 +1583,15 @@ def replay_minimised(env, cases):
 
 
 def run_minimiser_obligations(rep, env, known, specs):
+    env.prefetch([('q16m', (shape,), {'max_count': max_count, 'with_empty': with_empty}) for shape, max_count, with_empty in specs])
     for shape, max_count, with_empty in specs:
-        o = Q.q16m(env.ctx, shape, max_count=max_count, with_empty=with_empty)
+        o = env.run('q16m', shape, max_count=max_count, with_empty=with_empty)
         if o.result == 'sat':
             d = o.as_dict()
             d['result'] = 'superseded'
             d['note'] = 'sat for arbitrary code points; re-decided over the letters a..z so that counterexamples are plain strings'
             rep.obligations.append(d)
-            o = Q.q16m(env.ctx, shape, max_count=max_count, with_empty=with_empty, letters=True)
+            o = env.run('q16m', shape, max_count=max_count, with_empty=with_empty, letters=True)
         ob_add(rep, o)
         if o.result != 'sat':
             continue
@@ -1550,8 +1630,10 @@ def check_c16(rep):
     run_trie_obligations(rep, env, known, TRIE_SHAPES_QUICK if rep.tier == 'quick' else TRIE_SHAPES_THOROUGH)
     run_minimiser_obligations(rep, env, known, MIN_SPECS_QUICK if rep.tier == 'quick' else MIN_SPECS_THOROUGH)
     # (3) state elimination: the expression denotes the language of the automaton it is given
-    for shape in ([(1,), (1, 1), (2, 1), (2, 2)] if rep.tier == 'quick' else [(1,), (1, 1), (2, 1), (2, 2), (2, 2, 1), (3, 2), (3, 3), (2, 2, 2)]):
-        o = ob_add(rep, Q.q16e(env.ctx, shape))
+    e_shapes = [(1,), (1, 1), (2, 1), (2, 2)] if rep.tier == 'quick' else [(1,), (1, 1), (2, 1), (2, 2), (2, 2, 1), (3, 2), (3, 3), (2, 2, 2)]
+    env.prefetch([('q16e', (shape,), {}) for shape in e_shapes])
+    for shape in e_shapes:
+        o = ob_add(rep, env.run('q16e', shape))
         if o.result == 'sat':
             for m in o.verdict.models:
                 cases = [[m['v%d_%d' % (i, j)] for j in range(n)] for i, n in enumerate(shape)]
@@ -1611,13 +1693,13 @@ def replay_printed_literal(env, seq, settings):
 def run_printer_obligations(rep, env, known, which):
     obs = []
     if which == 'C06':
-        obs.append(ob_add(rep, Q.q06d(env.ctx, 1)))
+        obs.append(ob_add(rep, env.run('q06d', 1)))
         if rep.tier == 'thorough':
             single = obs[0].verdict.models if obs[0].result == 'sat' else []
-            obs.append(ob_add(rep, Q.q06d(env.ctx, 2)))
+            obs.append(ob_add(rep, env.run('q06d', 2)))
     else:
-        obs.append(ob_add(rep, Q.q06d(env.ctx, 1, alnum=True)))
-        obs.append(ob_add(rep, Q.q06d(env.ctx, 2, alnum=True)))
+        obs.append(ob_add(rep, env.run('q06d', 1, alnum=True)))
+        obs.append(ob_add(rep, env.run('q06d', 2, alnum=True)))
     for o in obs:
         if o.result != 'sat':
             continue
@@ -1673,15 +1755,17 @@ def replay_search(env, cases, settings):
     return bool(partial), what, {'pattern': pat, 'partial': [[c, sp] for c, sp in partial]}
 
 
-SEARCH_SMAP = {'no_start_anchor': 'no_start_anchor', 'no_end_anchor': 'no_end_anchor', 'capture': 'capture_groups', 'repetitions': 'repetitions'}
+SEARCH_SMAP = {'no_start_anchor': 'no_start_anchor', 'no_end_anchor': 'no_end_anchor', 'capture': 'capture_groups', 'repetitions': 'repetitions', 'digits': 'digits'}
 
 
 def run_search_obligations(rep, env, known, e2e_specs, unit_specs):
     """C08 clause 2.  e2e_specs: [(lens, settings)] through the whole of build(); unit_specs: [(skeleton, settings, second_ast)] through the
     self-check block of RegExp::from with the automaton stages replaced by an arbitrary expression of that shape"""
-    e2e_res = par_map(env, [('q08s', (lens, settings), {}) for lens, settings in e2e_specs]) if rep.tier == 'thorough' else None
+    unit_specs = [u_ if len(u_) == 4 else u_ + (None,) for u_ in unit_specs]
+    env.prefetch([('q08s', (lens, settings), {}) for lens, settings in e2e_specs] +
+                 [('q08u', (sk, settings, second, kinds), {}) for sk, settings, second, kinds in unit_specs])
     for i_, (lens, settings) in enumerate(e2e_specs):
-        o = ob_add(rep, e2e_res[i_] if e2e_res else Q.q08s(env.ctx, lens, settings))
+        o = ob_add(rep, env.run('q08s', lens, settings))
         if o.result != 'sat':
             continue
         nat = {SEARCH_SMAP[k]: True for k, v in settings.items() if v}
@@ -1691,21 +1775,22 @@ def run_search_obligations(rep, env, known, e2e_specs, unit_specs):
             key = 'search=%s,%s' % (canonical_shape(sorted(cases, key=lambda c: (len(c), c))), ','.join(sorted(nat)))
             classify(rep, known, 'Q08s', key, what, {'inputs': {'search': cases, 'settings': nat}, 'observed': obs}, bad)
     unit_only = 0
-    unit_res = par_map(env, [('q08u', (sk, settings, second), {}) for sk, settings, second in unit_specs]) if rep.tier == 'thorough' else None
-    for i_, (sk, settings, second) in enumerate(unit_specs):
-        o = ob_add(rep, unit_res[i_] if unit_res else Q.q08u(env.ctx, sk, settings, second))
+    for i_, (sk, settings, second, kinds) in enumerate(unit_specs):
+        o = ob_add(rep, env.run('q08u', sk, settings, second, kinds))
         if o.result != 'sat':
             continue
         nat = {SEARCH_SMAP[k]: True for k, v in settings.items() if v}
         repro_here = 0
         for m in o.verdict.models:
-            cases = [[m['x%d' % i] for i in w] for w in o.extra['cases_ix']]
+            cases = [[m[v_] for v_ in w] for w in o.extra['cases_vars']]
             cases = [list(t) for t in sorted(set(tuple(c) for c in cases), key=lambda c: (len(c), c))]
             bad, what, obs = replay_search(env, cases, nat)
             key = 'search=%s,%s' % (canonical_shape(cases), ','.join(sorted(nat)))
             if bad:
                 repro_here += 1
                 classify(rep, known, 'Q08s', key, what, {'inputs': {'search': cases, 'settings': nat}, 'observed': obs}, True)
+                if repro_here >= 4:
+                    break           # enough witnesses for this obligation
             else:
                 unit_only += 1
         if not repro_here:
@@ -1737,7 +1822,8 @@ def check_c08(rep):
                      '-- RegExp::from including its self-check (Regex::new, find_iter().count(), find, rotation, both fall-backs) from MIR; (b) the '
                      'self-check block as a unit: Dfa::from / Expression::from are replaced by stubs handing over ANY expression of a given shape '
                      '(up to 7 letters, 4 words of <= 3 letters; %s) whose language is the set of test cases, the rest of RegExp::from and '
-                     'Display run from MIR, and every test case must be found in full.' % (
+                     'Display run from MIR, and every test case must be found in full; also with conversion of digits (leaves that are digits become \\d through the real '
+                     'convert_to_char_classes, so that test cases are prefixes of one another only at class level).' % (
                          '%d shapes' % len(SK) if rep.tier == 'quick' else 'every shape of the enumerated family'))
     rep.outside = ['the regex crate itself (its documented leftmost-first semantics is modelled, on the syntax subset grex prints; every counterexample is '
                    'replayed with the real Regex::find)', 'test cases outside a..z, verbose mode and syntax highlighting in the self-check (Regex::to_string / '
@@ -1754,13 +1840,19 @@ def check_c08(rep):
     run_text_obligations(rep, env, known, specs)
     E, S, B = {'no_end_anchor': True}, {'no_start_anchor': True}, {'no_start_anchor': True, 'no_end_anchor': True}
     e2e = [((1, 1), E), ((2, 1), E), ((2, 1), B), ((2, 1), S), ((2, 2), B)]
-    unit = [(SK['x|xx'], E, 'same'), (SK['xx?|xx'], E, 'same'), (SK['xx?|xx'], B, 'same'), (SK['xx?|xx'], B, 'literals'), (SK['x(xx)?|(xx|x)x'], E, 'same')]
+    ED, BD = dict(E, digits=True), dict(B, digits=True)
+    unit = [(SK['x|xx'], E, 'same'), (SK['xx?|xx'], E, 'same'), (SK['xx?|xx'], B, 'same'), (SK['xx?|xx'], B, 'literals'), (SK['x(xx)?|(xx|x)x'], E, 'same'),
+            (SK['x(xx)?|(xx|x)x'], BD, 'same', 'ddldlld'), (SK['xx?|xx'], ED, 'same', 'dldd')]
     if rep.tier == 'thorough':
         e2e += [((2, 2), E), ((2, 2), S), ((2, 2, 1), E), ((2, 2, 1), B), ((3, 2), E), ((3, 2), B)]
         fam = Q.skeleton_family(int(os.environ.get('VERIF_C08_FAMILY', '5')))
         fam = [f for f in fam if len(set(len(w) for w in Q.skel_words(f)[0])) > 1]      # all words of one length: no word can be a prefix of another
         unit = [(f, st_, 'same') for f in fam for st_ in (E, B)] + [(SK['x(xx)?|(xx|x)x'], st_, sec) for st_ in (E, B) for sec in ('same', 'literals')] + \
                [(SK['x(xx)?|x?xx'], st_, 'same') for st_ in (E, B)] + [(SK['xx?|xx'], S, 'same'), (SK['xx?|xx'], B, 'literals')]
+        import itertools
+        allk = [''.join(k) for k in itertools.product('dl', repeat=7) if 'd' in k]
+        unit += [(SK['x(xx)?|(xx|x)x'], ED, 'same', k) for k in allk] + [(SK['x(xx)?|(xx|x)x'], BD, 'same', k) for k in allk if k[0] == 'd' and k[3] == 'd']
+        unit += [(SK['xx?|xx'], st_, 'same', ''.join(k)) for st_ in (ED, BD) for k in itertools.product('dl', repeat=4) if 'd' in k]
     run_search_obligations(rep, env, known, e2e, unit)
 
 
@@ -1802,8 +1894,9 @@ def replay_pipeline(env, cases, settings, clause):
 
 
 def run_pipeline_obligations(rep, env, known, specs, clause):
+    env.prefetch([('q02e', (lens, with_empty, clause, repetitions), {}) for lens, with_empty, repetitions in specs])
     for lens, with_empty, repetitions in specs:
-        o = ob_add(rep, Q.q02e(env.ctx, lens, with_empty, clause, repetitions))
+        o = ob_add(rep, env.run('q02e', lens, with_empty, clause, repetitions))
         if o.result != 'sat':
             continue
         for m in o.verdict.models:
@@ -1824,8 +1917,9 @@ def run_text_obligations(rep, env, known, specs):
     """end-to-end obligations on the printed pattern under non-default settings; specs: [(lens, domain, settings)]"""
     smap = {'repetitions': 'repetitions', 'verbose': 'verbose', 'capture': 'capture_groups', 'no_start_anchor': 'no_start_anchor',
             'no_end_anchor': 'no_end_anchor', 'escape': 'escape'}
+    env.prefetch([('q02t', (lens, False, dom, settings), {}) for lens, dom, settings in specs])
     for lens, dom, settings in specs:
-        o = ob_add(rep, Q.q02t(env.ctx, lens, False, dom, settings))
+        o = ob_add(rep, env.run('q02t', lens, False, dom, settings))
         if o.result != 'sat':
             continue
         nat_settings = {smap[k]: True for k, v in settings.items() if v}
@@ -1870,8 +1964,9 @@ def check_c02(rep):
     # the same pipeline followed by Display for RegExp: the language of the PRINTED text (parsed back) is the set of test cases
     tq = [((1, 1), False, 'letters'), ((2, 1), False, 'letters'), ((1,), False, 'ascii'), ((1, 1), False, 'ascii'), ((2,), False, 'ascii'), ((1,), True, 'letters')]
     tt = tq + [((2, 2), False, 'letters'), ((1, 1, 1), False, 'letters'), ((1, 1, 1), False, 'ascii'), ((2, 1), False, 'ascii'), ((3, 2), False, 'letters')]
+    env.prefetch([('q02t', (lens, with_empty, dom), {}) for lens, with_empty, dom in (tq if rep.tier == 'quick' else tt)])
     for lens, with_empty, dom in (tq if rep.tier == 'quick' else tt):
-        o = ob_add(rep, Q.q02t(env.ctx, lens, with_empty, dom))
+        o = ob_add(rep, env.run('q02t', lens, with_empty, dom))
         if o.result != 'sat':
             continue
         for m in o.verdict.models:
@@ -1921,11 +2016,12 @@ def check_c15(rep):
     known, _ = load_known()
     variants = env.ctx.mir.enums.get('Component') or []
     obs = []
+    env.prefetch([('q15', (k,), {}) for k in range(len(variants))] + [('q15g', (sh,), {}) for sh in ['unit1', 'class-token'] + (['unit2', 'nested'] if rep.tier == 'thorough' else [])])
     for k in range(len(variants)):
-        obs.append(ob_add(rep, Q.q15(env.ctx, k)))
+        obs.append(ob_add(rep, env.run('q15', k)))
     shapes = ['unit1', 'class-token'] + (['unit2', 'nested'] if rep.tier == 'thorough' else [])
     for sh in shapes:
-        obs.append(ob_add(rep, Q.q15g(env.ctx, sh)))
+        obs.append(ob_add(rep, env.run('q15g', sh)))
     # end to end on small inputs: the whole of build() with and without highlighting (incl. the colour-aware indentation)
     smap = {'verbose': 'verbose', 'capture': 'capture_groups', 'no_start_anchor': 'no_start_anchor', 'no_end_anchor': 'no_end_anchor',
             'ignore_case': 'ignore_case', 'repetitions': 'repetitions'}
@@ -1934,8 +2030,9 @@ def check_c15(rep):
     if rep.tier == 'thorough':
         tspecs += [((2, 1), {'verbose': True}), ((2, 1), {'verbose': True, 'no_end_anchor': True}), ((2, 1), {'ignore_case': True}),
                    ((1, 1), {'verbose': True, 'ignore_case': True}), ((2, 2), {'verbose': True, 'no_start_anchor': True}), ((3,), {'repetitions': True, 'verbose': True})]
+    env.prefetch([('q15t', (lens, stg), {}) for lens, stg in tspecs])
     for lens, stg in tspecs:
-        o = ob_add(rep, Q.q15t(env.ctx, lens, stg))
+        o = ob_add(rep, env.run('q15t', lens, stg))
         obs.append(o)
         if o.result != 'sat':
             continue
@@ -2119,7 +2216,9 @@ def main(argv):
     decided = [o for o in rep.obligations if o.get('result') in ('unsat', 'sat')]
     if rep.violations:
         code = 1
-    elif rep.nonrepro or not decided or rep.validation['mismatches']:
+    elif rep.nonrepro or rep.inconclusive or not decided or rep.validation['mismatches']:
+        # an obligation the machinery could not decide (unmodelled callee, step budget, unparsed output, solver gave up) is never
+        # counted as "held": every obligation is decided on the unchanged tree, so this only happens on a tree that differs from it
         code = 2
     else:
         code = 0
